@@ -124,6 +124,7 @@ def check(case):
         pending_clears = [0]
         fired_hooks = set()
         hooks_on = [True]
+        hook_budget = [40]
 
         def v(sig, msg):
             if len(vio) < 6:
@@ -175,6 +176,10 @@ def check(case):
             for hi, h in enumerate(case["hooks"]):
                 if hooks_on[0] and MODES[h["mode"]] == n and h["event"] == name:
                     if h["once"] and hi in fired_hooks:
+                        continue
+                    hook_budget[0] -= 1
+                    if hook_budget[0] < 0:      # a start<->stop hook pair would otherwise cycle for ever at one instant
+                        classes.add("hook-budget-cut")
                         continue
                     fired_hooks.add(hi)
                     do_request(h["request"], "hook:%s_%s" % (n, name))
